@@ -178,56 +178,170 @@ theorem lastIndexOf_go_not_mem (c : Char) (s : List Char) (i : Nat) (b : Option 
       simpa using fun e => h.1 e.symm
     rw [hx]; exact ih _ _ (fun hm => h (List.mem_cons_of_mem _ hm))
 
+theorem splitHostPort_no_colon (s : Str) (h : ':' ∉ s) : splitHostPort s = none := by
+  unfold splitHostPort lastIndexOf
+  rw [lastIndexOf_go_not_mem ':' s 0 none h]
+
+/-- without a colon the whole key is the host part -/
+theorem hostPart_no_colon (s : Str) (h : ':' ∉ s) : hostPart s = s := by
+  simp [hostPart, splitHostPort_no_colon s h]
+
 /-- without a colon `ReverseHostPort` is plain reversal -/
 theorem reverseHostPort_no_colon (s : Str) (h : ':' ∉ s) : reverseHostPort s = s.reverse := by
-  have : splitHostPort s = none := by
-    unfold splitHostPort lastIndexOf
-    rw [lastIndexOf_go_not_mem ':' s 0 none h]
-  simp [reverseHostPort, this]
+  simp [reverseHostPort, portPart, hostPart, splitHostPort_no_colon s h]
 
-/-- **longer_suffix_beats_shorter.** Pattern keys `*`+`X`+`S` and `*`+`S` (class: no `:` in them, the
-last character of `X` sorts above `*` — letters, digits, `.`, `-` all do): if the longer one matches
-and has a route whose path matches, the answer does not come from the shorter one. -/
-theorem longer_suffix_beats_shorter (cfg : Cfg) (t : Table) (req : Req) (hns : NoSkip cfg)
-    (S X : Str) (hX : X ≠ []) (hcolon : ':' ∉ X ++ S) (hlast : '*'.toNat < (X.getLast hX).toNat)
-    (hk : HostMatches cfg t req ('*' :: (X ++ S)))
-    (hcand : (look cfg t req ('*' :: (X ++ S))).isSome = true) (r : Route) (tg : Target) :
-    Lookup cfg t req ≠ some ('*' :: S, r, tg) := by
+theorem lastIndexOf_go_append (c : Char) (xs ys : List Char) (i : Nat) (b : Option Nat) :
+    lastIndexOf.go c i b (xs ++ ys) = lastIndexOf.go c (i + xs.length) (lastIndexOf.go c i b xs) ys := by
+  induction xs generalizing i b with
+  | nil => rfl
+  | cons x xs ih =>
+    simp only [List.cons_append, lastIndexOf.go, List.length_cons]
+    rw [ih]; congr 1; omega
+
+theorem lastIndexOf_host_port (h p : Str) (hh : ':' ∉ h) (hp : ':' ∉ p) :
+    lastIndexOf ':' (h ++ ':' :: p) = some h.length := by
+  unfold lastIndexOf
+  rw [lastIndexOf_go_append, lastIndexOf_go_not_mem ':' h 0 none hh]
+  simp only [lastIndexOf.go, beq_self_eq_true, if_true]
+  rw [lastIndexOf_go_not_mem ':' p _ _ hp]; simp
+
+/-- `net.SplitHostPort` on `host:port` without further colons or brackets -/
+theorem splitHostPort_host_port (h p : Str) (hh : ∀ c ∈ h, c ≠ ':' ∧ c ≠ '[' ∧ c ≠ ']')
+    (hp : ∀ c ∈ p, c ≠ ':' ∧ c ≠ '[' ∧ c ≠ ']') : splitHostPort (h ++ ':' :: p) = some (h, p) := by
+  have hc : ':' ∉ h := fun m => (hh _ m).1 rfl
+  have pc : ':' ∉ p := fun m => (hp _ m).1 rfl
+  have hd : (h ++ ':' :: p).head? ≠ some '[' := by
+    cases h with
+    | nil => simp
+    | cons x xs => simpa using (hh x (by simp)).2.1
+  have nb : ∀ c, (c = '[' ∨ c = ']') → (h ++ ':' :: p).contains c = false := by
+    intro c hcc
+    rw [Bool.eq_false_iff]; intro hm
+    rw [List.contains_iff_mem, List.mem_append, List.mem_cons] at hm
+    rcases hm with hm | rfl | hm
+    · rcases hcc with rfl | rfl
+      · exact (hh _ hm).2.1 rfl
+      · exact (hh _ hm).2.2 rfl
+    · rcases hcc with hcc | hcc <;> cases hcc
+    · rcases hcc with rfl | rfl
+      · exact (hp _ hm).2.1 rfl
+      · exact (hp _ hm).2.2 rfl
+  have tk : (h ++ ':' :: p).take h.length = h := by simp
+  have dr : (h ++ ':' :: p).drop (h.length + 1) = p := by
+    rw [← List.drop_drop]; simp
+  have hcont : h.contains ':' = false := by
+    rw [Bool.eq_false_iff]; intro hm; exact hc (List.contains_iff_mem.1 hm)
+  unfold splitHostPort
+  rw [lastIndexOf_host_port h p hc pc]
+  have : ((h ++ ':' :: p).head? == some '[') = false := by
+    rw [beq_eq_false_iff_ne]; exact hd
+  simp only [this, Bool.false_eq_true, ↓reduceIte, tk, dr, hcont, nb '[' (Or.inl rfl), nb ']' (Or.inr rfl)]
+
+theorem hostPart_host_port (h p : Str) (hne : h ≠ []) (hh : ∀ c ∈ h, c ≠ ':' ∧ c ≠ '[' ∧ c ≠ ']')
+    (hp : ∀ c ∈ p, c ≠ ':' ∧ c ≠ '[' ∧ c ≠ ']') : hostPart (h ++ ':' :: p) = h := by
+  unfold hostPart
+  rw [splitHostPort_host_port h p hh hp]
+  cases h with
+  | nil => exact absurd rfl hne
+  | cons x xs => simp
+
+/-- core of "a longer host suffix beats a shorter one", on two keys: when the host parts (what
+`net.SplitHostPort` leaves of the key, the whole key without a port) are `Y ++ T` and `*` ++ `T` with `Y` at
+least two characters, the longer key is sorted in front — whatever the characters of `Y` (since the repair
+"`*` below every other character"; before it `*!.foo.com` lost to `*.foo.com`), whatever the ports (since the
+repair "host part first, then the port"; before it `*.*.foo.com:8080` lost to `*.foo.com:8080`). -/
+theorem hostBefore_of_longer_suffix (a b Y T : Str) (hY : 2 ≤ Y.length)
+    (ha : hostPart a = Y ++ T) (hb : hostPart b = '*' :: T) : hostBefore a b = true := by
+  obtain ⟨c, u, hu, hune⟩ : ∃ c u, Y.reverse = c :: u ∧ u ≠ [] := by
+    cases hx : Y.reverse with
+    | nil =>
+      have h1 : Y.reverse.length = 0 := by rw [hx]; rfl
+      rw [List.length_reverse] at h1; omega
+    | cons c u =>
+      refine ⟨c, u, rfl, ?_⟩
+      intro e
+      have h1 : Y.reverse.length = 1 := by rw [hx, e]; rfl
+      rw [List.length_reverse] at h1; omega
+  have hlt : lessSpecificHost (revParts b).1 (revParts a).1 = true := by
+    simp only [revParts, ha, hb, List.reverse_cons, List.reverse_append, hu, lessSpecificHost]
+    rw [ltBy_append_left]
+    cases u with
+    | nil => exact absurd rfl hune
+    | cons d u' =>
+      simp only [List.cons_append, List.nil_append, ltBy, starRank]
+      by_cases hc : c = '*'
+      · subst hc; simp [ltBy]
+      · have : (c == '*') = false := by simpa using hc
+        simp [this]
+  have hne : (revParts a).1 ≠ (revParts b).1 := by
+    intro e; rw [e] at hlt; rw [lessSpecificHost, ltBy_irrefl] at hlt; cases hlt
+  unfold hostBefore
+  simp [hne, hlt]
+
+/-- **longer_suffix_beats_shorter_partial.** The full statement — *for all pattern keys `Y ++ S` and
+`*` ++ `S` with `Y` of at least two characters: if the longer one matches and has a route whose path
+matches, the answer does not come from the shorter one* — fails for keys whose port `net.SplitHostPort`
+does not recognise in one of the two (`longer_suffix_full_statement_fails`: `[ab].foo.com:8080` against
+`*.foo.com:8080`; recorded finding, replayed from `corpus/c03.lookup.jsonl`). Forced hypothesis: the host
+parts of the two keys (`hostPart`: the host of `net.SplitHostPort`, the whole key without a port) are
+`Y ++ T` and `*` ++ `T`. The two corollaries below discharge it for keys without a colon and for keys
+`host:port` with one port. -/
+theorem longer_suffix_beats_shorter_partial (cfg : Cfg) (t : Table) (req : Req) (hns : NoSkip cfg)
+    (a b Y T : Str) (hY : 2 ≤ Y.length) (ha : hostPart a = Y ++ T) (hb : hostPart b = '*' :: T)
+    (hpat : isGlobPat b = true) (hk : HostMatches cfg t req a)
+    (hcand : (look cfg t req a).isSome = true) (r : Route) (tg : Target) :
+    Lookup cfg t req ≠ some (b, r, tg) := by
   intro hres
-  have hb : hostBefore ('*' :: (X ++ S)) ('*' :: S) = true := by
-    have c1 : ':' ∉ '*' :: (X ++ S) := by
-      intro hm; rcases List.mem_cons.1 hm with e | hm
-      · cases e
-      · exact hcolon hm
-    have c2 : ':' ∉ '*' :: S := by
-      intro hm; rcases List.mem_cons.1 hm with e | hm
-      · cases e
-      · exact hcolon (List.mem_append_right _ hm)
-    obtain ⟨u, c, hu⟩ : ∃ u c, X.reverse = c :: u := by
-      cases hx : X.reverse with
-      | nil => simp at hx; exact absurd hx hX
-      | cons c u => exact ⟨u, c, rfl⟩
-    have hc : c = X.getLast hX := by
-      have := List.getLast_eq_head_reverse hX
-      simp [hu] at this; exact this.symm
-    have hlt : strLt (reverseHostPort ('*' :: S)) (reverseHostPort ('*' :: (X ++ S))) = true := by
-      rw [reverseHostPort_no_colon _ c1, reverseHostPort_no_colon _ c2]
-      simp only [List.reverse_cons, List.reverse_append, hu, List.append_assoc, List.cons_append]
-      exact strLt_of_head_lt S.reverse '*' c [] (u ++ ['*']) (hc ▸ hlast)
-    unfold hostBefore
-    have hne : reverseHostPort ('*' :: (X ++ S)) ≠ reverseHostPort ('*' :: S) := by
-      intro e; rw [e, strLt_irrefl] at hlt; cases hlt
-    simp [hne, hlt]
-  have hg : isGlobPat ('*' :: S) = true := by simp [isGlobPat]
+  have hbef := hostBefore_of_longer_suffix a b Y T hY ha hb
   rcases (lookup_host_order cfg t req hns hres (mem_matched_iff.2 hk) hcand).2 with e | ho
-  · have := congrArg List.length e
-    simp at this
-    cases X with
-    | nil => exact hX rfl
-    | cons x xs => simp at this
+  · rw [e, hb] at ha
+    have := congrArg List.length ha
+    simp only [List.length_cons, List.length_append] at this; omega
   · rcases ho with ⟨hf, _⟩ | ⟨_, hb'⟩
-    · rw [hg] at hf; cases hf
-    · rw [hb] at hb'; cases hb'
+    · rw [hpat] at hf; cases hf
+    · rw [hbef] at hb'; cases hb'
+
+/-- **longer_suffix_beats_shorter** (keys without a port). Pattern keys `Y ++ S` and `*` ++ `S`, no `:` in
+them, `Y` of at least two characters (`*.a` ++ `.foo.com`, `*.*` ++ `.foo.com`, `*-eu` ++ `.foo.com`,
+`*!` ++ `.foo.com`, `{a,b}` ++ `.foo.com`): if the longer one matches and has a route whose path matches,
+the answer does not come from the shorter one. No condition on the characters of `Y`. -/
+theorem longer_suffix_beats_shorter (cfg : Cfg) (t : Table) (req : Req) (hns : NoSkip cfg)
+    (S Y : Str) (hY : 2 ≤ Y.length) (hcolon : ':' ∉ Y ++ S)
+    (hk : HostMatches cfg t req (Y ++ S))
+    (hcand : (look cfg t req (Y ++ S)).isSome = true) (r : Route) (tg : Target) :
+    Lookup cfg t req ≠ some ('*' :: S, r, tg) := by
+  have c2 : ':' ∉ '*' :: S := by
+    intro hm; rcases List.mem_cons.1 hm with e | hm
+    · cases e
+    · exact hcolon (List.mem_append_right _ hm)
+  exact longer_suffix_beats_shorter_partial cfg t req hns (Y ++ S) ('*' :: S) Y S hY
+    (hostPart_no_colon _ hcolon) (hostPart_no_colon _ c2) (by simp [isGlobPat]) hk hcand r tg
+
+/-- **longer_suffix_beats_shorter_port** (keys with one explicit port). Pattern keys `Y ++ T ++ ":" ++ P`
+and `*` ++ `T ++ ":" ++ P` (no further colon and no bracket in `Y`, `T`, `P`): the same. This is the class
+the repair "host part first, then the port" made true: `*.*.foo.com:8080` and `*-*.foo.com:8080` lost to
+`*.foo.com:8080` because the `:` in front of the port sorts above `.`, `-` and the digits. -/
+theorem longer_suffix_beats_shorter_port (cfg : Cfg) (t : Table) (req : Req) (hns : NoSkip cfg)
+    (T Y P : Str) (hY : 2 ≤ Y.length)
+    (hYc : ∀ c ∈ Y, c ≠ ':' ∧ c ≠ '[' ∧ c ≠ ']') (hTc : ∀ c ∈ T, c ≠ ':' ∧ c ≠ '[' ∧ c ≠ ']')
+    (hPc : ∀ c ∈ P, c ≠ ':' ∧ c ≠ '[' ∧ c ≠ ']')
+    (hk : HostMatches cfg t req ((Y ++ T) ++ ':' :: P))
+    (hcand : (look cfg t req ((Y ++ T) ++ ':' :: P)).isSome = true) (r : Route) (tg : Target) :
+    Lookup cfg t req ≠ some (('*' :: T) ++ ':' :: P, r, tg) := by
+  have hYT : ∀ c ∈ Y ++ T, c ≠ ':' ∧ c ≠ '[' ∧ c ≠ ']' := by
+    intro c hc; rcases List.mem_append.1 hc with hc | hc
+    · exact hYc c hc
+    · exact hTc c hc
+  have hsT : ∀ c ∈ '*' :: T, c ≠ ':' ∧ c ≠ '[' ∧ c ≠ ']' := by
+    intro c hc; rcases List.mem_cons.1 hc with rfl | hc
+    · decide
+    · exact hTc c hc
+  have hne : Y ++ T ≠ [] := by
+    intro e; have := congrArg List.length e
+    simp only [List.length_append, List.length_nil] at this; omega
+  exact longer_suffix_beats_shorter_partial cfg t req hns _ _ Y T hY
+    (hostPart_host_port (Y ++ T) P hne hYT hPc) (hostPart_host_port ('*' :: T) P (by simp) hsT hPc)
+    (by simp [isGlobPat]) hk hcand r tg
 
 /-! ### within a host: first match in table order; the longest path for prefix and iprefix -/
 
@@ -475,5 +589,46 @@ example : sortRoutes [rt "" "/foo" "a", rt "" "/FOOBAR" "b", rt "" "/" "c"] = [r
 example : Lookup (cfg .pfx true) T ⟨"FOO.com".toList, false, "/".toList⟩ = Lookup (cfg .pfx true) T ⟨"foo.com".toList, false, "/".toList⟩ :=
   host_case_insensitive' _ _ _ _ _ _ (by decide)
 example : reverseHostPort "foo.com:8443".toList = "moc.oof:8443".toList ∧ reverseHostPort ":1234".toList = "[4321:]:1234".toList := by decide
+
+/-! the host order after the two round-4 repairs -/
+-- with a port the longer key still goes first (before the repair `:` took part in the comparison)
+example : hostBefore "*.*.foo.com:8080".toList "*.foo.com:8080".toList = true ∧
+    hostBefore "*-*.foo.com:8080".toList "*.foo.com:8080".toList = true ∧
+    hostBefore "*.*.foo.com".toList "*.foo.com:80".toList = true := by decide
+-- `*` below every other character: a literal character under `*` (`!`, `$`, `&`, `'`, `(`, `)`) no longer loses
+example : hostBefore "*!.foo.com".toList "*.foo.com".toList = true ∧ hostBefore "*.foo.com".toList "*!.foo.com".toList = false := by decide
+example : (sortHosts ["*.foo.com:8080".toList, "*".toList, "*.*.foo.com:8080".toList, "*-eu.*.foo.com:8080".toList]).map String.ofList =
+    ["*-eu.*.foo.com:8080", "*.*.foo.com:8080", "*.foo.com:8080", "*"] := by decide
+-- the hypotheses of `longer_suffix_beats_shorter_partial` and of its two corollaries are satisfiable
+example : hostPart "*.*.foo.com:8080".toList = "*.*".toList ++ ".foo.com".toList ∧
+    hostPart "*.foo.com:8080".toList = '*' :: ".foo.com".toList ∧ portPart "*.foo.com:8080".toList = "8080".toList := by decide
+def T2 : Table :=
+  [ ("*.foo.com:8080".toList, [rt "*.foo.com:8080" "/" "short"]),
+    ("*.*.foo.com:8080".toList, [rt "*.*.foo.com:8080" "/" "long"]) ]
+example : answer (Lookup (cfg .pfx false) T2 ⟨"a.b.foo.com:8080".toList, false, "/x".toList⟩) = some ("*.*.foo.com:8080", "/", "long") := by decide
+example : ∀ r tg, Lookup (cfg .pfx false) T2 ⟨"a.b.foo.com:8080".toList, false, "/x".toList⟩ ≠ some ("*.foo.com:8080".toList, r, tg) :=
+  longer_suffix_beats_shorter_port (cfg .pfx false) T2 _ rfl ".foo.com".toList "*.*".toList "8080".toList (by decide)
+    (by decide) (by decide) (by decide) (by unfold HostMatches; decide) (by decide)
+
+/-- the excluded point of `longer_suffix_beats_shorter_partial`: `[ab].foo.com:8080` (for `net.SplitHostPort`
+a bracketed host without a port: error, so the whole key is reversed, port first) against `*.foo.com:8080`
+(host part `*.foo.com`). The host glob is a parameter; here: everything matches. -/
+def TW : Table :=
+  [ ("[ab].foo.com:8080".toList, [rt "[ab].foo.com:8080" "/" "long"]),
+    ("*.foo.com:8080".toList, [rt "*.foo.com:8080" "/" "short"]) ]
+def cfgW : Cfg := { globMatch := fun _ _ => true, pathMatch := pathMatch globLib .pfx, pick := fun r => r.targets.headD (tg "?") }
+def reqW : Req := ⟨"a.foo.com:8080".toList, false, "/".toList⟩
+
+example : hostPart "[ab].foo.com:8080".toList = "[ab].foo.com:8080".toList ∧ hostBefore "[ab].foo.com:8080".toList "*.foo.com:8080".toList = false := by decide
+
+/-- **longer_suffix_full_statement_fails.** The statement without the hypothesis on the host parts is false
+(recorded finding; the witness is replayed on the real code from `corpus/c03.lookup.jsonl`). -/
+theorem longer_suffix_full_statement_fails :
+    ¬ (∀ (cfg : Cfg) (t : Table) (req : Req), NoSkip cfg → ∀ (S Y : Str), 2 ≤ Y.length →
+        HostMatches cfg t req (Y ++ S) → (look cfg t req (Y ++ S)).isSome = true →
+        ∀ r tg, Lookup cfg t req ≠ some ('*' :: S, r, tg)) := by
+  intro h
+  exact h cfgW TW reqW rfl ".foo.com:8080".toList "[ab]".toList (by decide) (by unfold HostMatches; decide) (by decide)
+    (rt "*.foo.com:8080" "/" "short") (tg "short") (by decide)
 
 end Fabio.Props.C03.Ex
